@@ -1173,3 +1173,26 @@ func lemmaSliceConcat(seq Sequence, c int) Sequence {
 //@   prop C19 C07
 //@   loop 1: invariant 0 <= i && i <= len(s)
 //@   loop 1: decreases len(s) - i
+
+// ---------------------------------------------------------------------------
+// nucleotide.go: Match (C18).  For each query letter the emitted regexp class must be exactly
+// the set of (lower-case) letters whose base set is contained in the query letter's base set;
+// any other query byte must be emitted so that it matches only itself.
+
+//@ spec func subBases(x int, c int) bool = isIUPAC(x) && (hasA(x) ==> hasA(c)) && (hasC(x) ==> hasC(c)) && (hasG(x) ==> hasG(c)) && (hasT(x) ==> hasT(c))
+//@ spec func isLower(x int) bool = 97 <= x && x <= 122
+//@ spec func isMeta(c int) bool = c == '\\' || c == '.' || c == '+' || c == '*' || c == '?' || c == '(' || c == ')' || c == '|' || c == '[' || c == ']' || c == '{' || c == '}' || c == '^' || c == '$'
+//@ spec macro classLit(c int, s string) bool =
+//@   s[0] == '[' && s[len(s)-1] == ']' && (forall x: (isLower(x) && subBases(x, c)) <==> (exists j in 1..len(s)-1: int(s[j]) == x))
+
+// literalFor(c, s): s is the quoted pattern for the one-byte text c, and c denotes no other letter.
+//@ spec macro literalFor(c int, s string) bool =
+//@   len(unquote(s)) == 1 && int(unquote(s)[0]) == c && (forall x: isLower(x) && subBases(x, c) ==> x == c)
+
+//@ func Match(seq Sequence, query Sequence) (segments []Segment)
+//@   prop C18
+//@   requires !isnil(seq) && !isnil(query)
+//@   requires forall k in 0..len(bytesOf(query)): bytesOf(query)[k] < 128
+//@   callpre WriteString(s): (int(c) == 'n' && s == ".") || classLit(int(c), s) || literalFor(int(c), s)
+//@   callpre WriteByte(b): !isMeta(int(b)) && (forall x: isLower(x) && subBases(x, int(b)) ==> x == int(b))
+//@   loop 1: invariant forall k in 0..len(bytesOf(query)): bytesOf(query)[k] < 128
